@@ -96,7 +96,12 @@ class InternalCompiler(Compiler):
 
         # 3. If expr is already been computed, return its index
         elif expr in self.expqmap:
-            return self.expqmap[expr]
+            cached = self.expqmap[expr]
+            # When the caller accumulates into dest, xor the cached value into it
+            if dest is not None and dest != cached:
+                qc.cx(cached, dest)
+                return dest
+            return cached
 
         # 4. Special mappings section
         # Add here special expressions mappings to QC
@@ -150,6 +155,7 @@ class InternalCompiler(Compiler):
         erets = list(map(lambda e: self.compile_expr(qc, e), expr.args))
 
         # 2. Get a destination qubit
+        fresh = dest is None
         if dest is None:
             dest = qc.get_free_ancilla()
 
@@ -161,9 +167,11 @@ class InternalCompiler(Compiler):
         erets = list(set(erets))
         qc.mcx(erets, dest)
 
-        # 5. Mark ancilla every argument and return
+        # 5. Mark ancilla every argument and return; an accumulator holds more
+        # than the value of expr, so only a fresh destination is remembered
         [qc.mark_ancilla(eret) for eret in erets]
-        self.expqmap[expr] = dest
+        if fresh:
+            self.expqmap[expr] = dest
 
         return dest
 
@@ -172,6 +180,7 @@ class InternalCompiler(Compiler):
         erets = list(map(lambda e: self.compile_expr(qc, e), expr.args))
 
         # 2. Get a destination qubit
+        fresh = dest is None
         if dest is None:
             dest = qc.get_free_ancilla()
 
@@ -199,7 +208,8 @@ class InternalCompiler(Compiler):
 
         # 5. Mark ancilla every argument and return
         [qc.mark_ancilla(eret) for eret in erets]
-        self.expqmap[expr] = dest
+        if fresh:
+            self.expqmap[expr] = dest
 
         return dest
 
@@ -218,18 +228,20 @@ class InternalCompiler(Compiler):
         eret = self.compile_expr(qc, expr.args[0])
 
         # 2. If the expression is on an ancilla, perform the X updating the exp
-        if eret in qc.ancilla_lst:
+        if dest is None and eret in qc.ancilla_lst:
             qc.x(eret)
             self.expqmap[expr] = eret
             return eret
         # 3. Otherwise map to a new qubit and perform the X
         else:
+            fresh = dest is None
             if dest is None:
                 dest = qc.get_free_ancilla()
             qc.cx(eret, dest)
             qc.x(dest)
             qc.mark_ancilla(eret)
-            self.expqmap[expr] = dest
+            if fresh:
+                self.expqmap[expr] = dest
 
             return dest
 
@@ -259,7 +271,8 @@ class InternalCompiler(Compiler):
             else:
                 d = self.compile_expr(qc, e, dest=d)
 
-        self.expqmap[expr] = d
+        if dest is None:
+            self.expqmap[expr] = d
         return d
 
     def compile_symbol(self, qc, expr, dest=None, sym=None) -> int:
